@@ -60,3 +60,46 @@ Theorem C06_cluster_flip_keeps_worldline : forall sl st b flips,
   let '(sl', st') := apply_flips sl st b flips in wf st' sl' = true.
 Proof. exact cluster_flip_wf. Qed.
 Print Assumptions C06_cluster_flip_keeps_worldline.
+
+(* ------------------------------------------------------------------------------------------- *)
+(* The directed-loop update (Model/Loop.v: any Hamiltonian, any arity, loop start chosen as the code
+   does) closes into a consistent periodic world line, for EVERY start and EVERY sequence of exit
+   choices (not only those of positive probability).  Invariant (Proofs/LoopWorldLine.v): the
+   configuration with the loop's current entrance leg and its initial leg toggled is consistent; a
+   vertex visit toggles both ends of one world-line segment of it (and the p = 0 value when the segment
+   crosses the time boundary). *)
+From QmcV Require Import Model.Loop Proofs.ProgSafety Proofs.LoopWorldLine.
+
+Theorem C06_loop_update_keeps_worldline : forall H fuel (sl : slots) (st : state),
+  ops_wellformed (length st) sl = true -> wf st sl = true ->
+  all_out_r good (loop_update fuel H sl st).
+Proof. exact loop_update_wf. Qed.
+Print Assumptions C06_loop_update_keeps_worldline.
+
+Theorem C06_loop_update_keeps_worldline_outcomes : forall H fuel sl st p sl' st',
+  ops_wellformed (length st) sl = true -> wf st sl = true ->
+  In (p, Some (sl', st')) (denote (loop_update fuel H sl st)) -> wf st' sl' = true.
+Proof. exact loop_update_keeps_worldline. Qed.
+Print Assumptions C06_loop_update_keeps_worldline_outcomes.
+
+(* both ends of one world-line segment toggled: consistency is kept (the step the loop is made of) *)
+Theorem C06_segment_flip_keeps_worldline : forall (st : state) sl p a ka v q kq,
+  swf (length st) sl -> wf st sl = true -> get_op sl p = Some a -> nth_error (o_vars a) ka = Some v ->
+  next_for_var sl p v = Some (q, kq) ->
+  wf st (T (T sl p (ka, Outputs)) q (kq, Inputs)) = true.
+Proof. exact seg_fwd_inner. Qed.
+Print Assumptions C06_segment_flip_keeps_worldline.
+
+Theorem C06_segment_flip_across_time_boundary : forall (st : state) sl p a ka v q kq,
+  swf (length st) sl -> wf st sl = true -> get_op sl p = Some a -> nth_error (o_vars a) ka = Some v ->
+  next_for_var sl p v = None -> first_for_var sl v = Some (q, kq) ->
+  wf (xorv st v) (T (T sl p (ka, Outputs)) q (kq, Inputs)) = true.
+Proof. exact seg_fwd_wrap. Qed.
+Print Assumptions C06_segment_flip_across_time_boundary.
+
+(* non-vacuity: a consistent two-spin string with an exchange vertex satisfies the premises *)
+Example C06_ex_loop_premises :
+  let sl := [Some (mkOp [0; 1] 0 [true; false] [false; true] false); None;
+             Some (mkOp [0; 1] 0 [false; true] [true; false] false)] in
+  ops_wellformed 2 sl = true /\ wf [true; false] sl = true.
+Proof. vm_compute. split; reflexivity. Qed.
